@@ -170,7 +170,7 @@ def _find_nth(
     mask: Optional[np.ndarray] = None,
 ):
     out = np.full(ngroups, -1, dtype=np.int64)
-    seen = np.zeros(ngroups, dtype=np.int16)
+    seen = np.zeros(ngroups, dtype=np.int64)
     masked = mask is not None
     if n >= 0:
         rng = range(len(group_key))
@@ -201,7 +201,7 @@ def _find_first_or_last_n(
     forward: bool = True,
 ):
     out = np.full((ngroups, n), -1, dtype=np.int64)
-    seen = np.zeros(ngroups, dtype=np.int16)
+    seen = np.zeros(ngroups, dtype=np.int64)
     masked = mask is not None
     if forward:
         rng = range(len(group_key))
@@ -1201,9 +1201,9 @@ def _rolling_sum_or_mean_1d(
     # Track rolling sums and circular buffers for each group
     group_sums = np.zeros(ngroups)
     group_buffers = np.full((ngroups, window), null_value)
-    group_positions = np.zeros(ngroups, dtype=np.int16)
-    group_non_null = np.zeros(ngroups, dtype=np.int16)
-    group_n_seen = np.zeros(ngroups, dtype=np.int16)
+    group_positions = np.zeros(ngroups, dtype=np.int64)
+    group_non_null = np.zeros(ngroups, dtype=np.int64)
+    group_n_seen = np.zeros(ngroups, dtype=np.int64)
     i = -1
 
     for arr in values:
@@ -1398,11 +1398,11 @@ def _rolling_max_or_min_1d(
 
     # Track rolling max/min and its position in circular buffers for each group
     current_best = np.full(ngroups, null_value)
-    pos_of_current_best = np.zeros(ngroups, dtype=np.int16)
+    pos_of_current_best = np.zeros(ngroups, dtype=np.int64)
     group_buffers = np.full((ngroups, window), null_value)
-    group_buffer_pos = np.zeros(ngroups, dtype=np.int16)
-    group_non_null = np.zeros(ngroups, dtype=np.int16)
-    group_n_seen = np.zeros(ngroups, dtype=np.int16)
+    group_buffer_pos = np.zeros(ngroups, dtype=np.int64)
+    group_non_null = np.zeros(ngroups, dtype=np.int64)
+    group_n_seen = np.zeros(ngroups, dtype=np.int64)
 
     i = -1
     for arr in values:
@@ -1556,8 +1556,8 @@ def _rolling_shift_or_diff_1d(
 
     # Track rolling sums and circular buffers for each group
     group_buffers = np.full((ngroups, window), null_value)
-    group_buffer_pos = np.zeros(ngroups, dtype=np.int16)
-    group_counts = np.zeros(ngroups, dtype=np.int16)
+    group_buffer_pos = np.zeros(ngroups, dtype=np.int64)
+    group_counts = np.zeros(ngroups, dtype=np.int64)
 
     i = -1
     for arr in values:
